@@ -140,8 +140,11 @@ def main(tier: str, seed: int) -> int:
         "C06", tier, seed,
         rule="exhaustive: every labelled gate tree over 1..5 (thorough 1..6) distinct events, "
              "operators AND/OR/XOR alternating between levels, depth <=3, generated from set "
-             "partitions; input = the complete outcome family of the tree. distinct = distinct "
-             "trees; trivial = the single-event tree")
+             "partitions; input = the complete outcome family of the tree; plus an in-situ "
+             "soundness monitor on every calculate_logic_gates call made while the real "
+             "pipeline learns corpus-63 / F_core / F_edge complete samples (event sets with "
+             "loop and dummy events). distinct = distinct trees; trivial = the single-event "
+             "tree")
     chk.exhaustive = True
     chk.assumptions = [
         "outcome semantics: AND = product, XOR = union, OR = products over non-empty child "
@@ -184,6 +187,42 @@ def main(tier: str, seed: int) -> int:
         **sub_tot, "examples": sub_examples[:3],
         "note": "random strict sub-families of outcome families (outside the quantifier): "
                 "soundness observed, not judged"}
+    # in-situ part: soundness of every real calculate_logic_gates call made by the running
+    # pipeline (event sets with loop events, dummy start/end/break events, bunched merges)
+    from vlib import lcase
+    want = {"corpus": 1, "core-exh": 60, "core-rand": 40, "edge": 10} if tier == "quick" else \
+        {"corpus": 1, "core-exh": 100000, "core-rand": 600, "edge": 80}
+    defs = lcase.definitions(tier, seed + 6000, want)
+    lcases, _st = lcase.s1_cases(defs, seed, k_list=(2,), schedules=1, check_extra=False,
+                                 watch_gates=True)
+    lres, notes2 = core.run_workers("vlib.lcase", "run_learn_case", lcases,
+                                    hashseeds=hashseeds[:8], chunks_per_proc=4, timeout=3000)
+    for n in notes2:
+        chk.note_inconclusive(n)
+    insitu = {"pipeline_runs": 0, "calls": 0, "checked": 0, "skipped_counts_gt_1": 0,
+              "skipped_operator": 0, "unsound": 0}
+    for r in lres:
+        c = lcases[r["_idx"]]
+        if r.get("status") != "ok":
+            chk.note_inconclusive(f"in-situ case {c['name']}: {r.get('status')} {r.get('detail')}")
+            continue
+        g = r.get("gates") or {}
+        insitu["pipeline_runs"] += 1
+        insitu["calls"] += g.get("calls", 0)
+        insitu["checked"] += g.get("checked", 0)
+        insitu["skipped_counts_gt_1"] += g.get("skipped_counts", 0)
+        insitu["skipped_operator"] += g.get("skipped_operator", 0)
+        for u in g.get("unsound", []):
+            insitu["unsound"] += 1
+            chk.violation("unsound:observed-set-not-admitted",
+                          {"in_situ": True, "definition": c["name"], "family": u["family"],
+                           "inferred": u["inferred"], "missing": u["missing"],
+                           "case": {k: c[k] for k in ("name", "jobs", "uuid_seed", "rng_seed")}},
+                          tags=["in-situ"])
+    chk.evaluations += insitu["checked"]
+    chk.extra["in_situ_monitor"] = insitu
+    if insitu["checked"] == 0:
+        chk.note_inconclusive("in-situ gate monitor observed no call")
     expect = {1: 1, 2: 3, 3: 21, 4: 243, 5: 2493, 6: 27099}
     for n, c in per_size.items():
         if expect.get(n) != c:
